@@ -114,6 +114,7 @@ pub fn jobs(tier: Tier, seed: u64) -> Vec<Job> {
         }
     }
     Rng::new(seed).shuffle(&mut triples);
+    triples.truncate(super::c01::MAX_JOBS / 3);
     for (must, (f, g, h)) in corner_triples.into_iter().map(|t| (true, t)).chain(triples.into_iter().map(|t| (false, t))) {
         g_assoc.push((must, crate::case!(format!("assoc {} {} {}", f.show(), g.show(), h.show()), gen_chain(vec![f, g, h]), c03_assoc, oracle_pair, 2)));
     }
@@ -151,6 +152,7 @@ pub fn jobs(tier: Tier, seed: u64) -> Vec<Job> {
         }
     }
     Rng::new(seed ^ 2).shuffle(&mut quads);
+    quads.truncate(super::c01::MAX_JOBS / 3);
     let mut g_int = vec![];
     let corner_quads = vec![(s(2, 1, 1, 2, 1, 2), s(1, 0, 0, 0, 1, 1), s(2, 0, 0, 0, 2, 1), s(1, 1, 1, 1, 1, 1)), (s(1, 1, 1, 1, 1, 1), s(1, 1, 1, 1, 1, 1), s(1, 1, 1, 1, 1, 1), s(1, 1, 1, 1, 1, 1))];
     for (must, (f, g, h, k)) in corner_quads.into_iter().map(|t| (true, t)).chain(quads.into_iter().map(|t| (false, t))) {
@@ -177,6 +179,7 @@ pub fn jobs(tier: Tier, seed: u64) -> Vec<Job> {
         }
     }
     Rng::new(seed ^ 3).shuffle(&mut pairs);
+    pairs.truncate(super::c01::MAX_JOBS / 3);
     let mut g_nat = vec![];
     let corner_pairs = vec![(s(1, 1, 1, 1, 1, 1), s(1, 1, 1, 1, 1, 1)), (s(2, 1, 1, 1, 2, 1), s(1, 0, 0, 0, 0, 2)), (s(0, 0, 0, 0, 0, 0), s(2, 1, 1, 1, 1, 2))];
     for (must, (f, g)) in corner_pairs.into_iter().map(|t| (true, t)).chain(pairs.into_iter().map(|t| (false, t))) {
